@@ -1,32 +1,35 @@
-import XjsModel.Proofs.RtMain
+import XjsModel.Proofs.RsMain
 import XjsModel.Props.TableObligations
 /-
   C03 — Printed code parses back to the tree it was printed from.
 
-  Quantifier of the theorem: ALL expression trees without function literals and object literals — atoms
-  (identifiers, numbers, strings, back-quoted strings, booleans, null), explicit parentheses, the four prefix
-  operators, the thirteen binary operators, the two postfix operators, calls with any number of arguments, member
-  access (dot and computed), assignment and the two compound assignments, array literals — of any depth and in any
-  combination, whether the tree came from the parser or was assembled programmatically; parser in any mode
+  Quantifier of the theorems: ALL trees of the language — expressions (atoms, explicit parentheses, the four prefix
+  operators, the thirteen binary operators, the two postfix operators, calls, member access (dot and computed),
+  assignment and the two compound assignments, array literals, object literals, function expressions) and statements
+  (expression statements, `let` with and without initialiser, `return` with and without value, `if` with and without
+  `else`, `while`, `for` with any combination of clauses, blocks, function declarations), whole programs — of any depth
+  and in any combination, whether the tree came from the parser or was assembled programmatically; parser in any mode
   (smart-semicolon mode: `(` / `[` of a call / index not first on its line), with the built-in tables.
-  The one restriction on the shape (`SE.wf`): callee, object and assignment target are call-level-or-tighter
-  expressions (ECMAScript's LeftHandSideExpression) — the printer does not parenthesise those positions, so a tree
-  with e.g. a unary callee prints text that denotes another tree (the oracle's directed families cover those).
+  The restrictions on the shape (`wf`) are exactly the three known findings of this property plus ECMAScript's
+  LeftHandSideExpression positions: callee, object and assignment target are call-level-or-tighter expressions; an
+  expression statement does not start with `{` or `function` (finding stmt-start-object-or-function); the then-branch
+  of an `if` with `else` does not end in an `if` without `else` (finding dangling-else).
 
-  Proved here (`RTE.main`, the Pratt invariant by structural recursion over the mutually inductive trees):
-    the token sequence that the printer's parenthesisation rule produces for a tree (`SE.toks`: left operand in
-    parentheses iff its precedence is lower, right operand iff lower or equal, prefix-operator operand iff lower than
-    UNARY, postfix operand iff lower than POSTFIX) is parsed back to exactly that tree, the printer's parentheses
-    appearing as grouping nodes (`SE.tree`), and the cursor stops on the last token of the expression.
+  Proved here (`RS.main`, `RS.stmtMain`, `RS.program_round_trip`: the Pratt invariant for expressions, its statement
+  counterpart, and the statement loops, by structural recursion over the seven mutually inductive spec-tree types):
+    the token sequence the printer emits for a tree (`toks`: operands parenthesised by the printer's four precedence
+    tests; `;` after expression, `let` and `return` statements; no separator after `}`) is parsed back to exactly that
+    tree, the printer's parentheses appearing as grouping nodes (`tree`), without any error; for expressions the cursor
+    stops on the last token.
   Tie to the code: the printer's and the parser's precedence tables are re-extracted from /repo on every run and
   compared by `decide` (TableObligations); `parenLeft … parenPostfix` are the comparisons of ast.go.
   Decided by the correspondence run (PRINTT stream: programmatic trees, exhaustive parent/child pairs) and the
-  model-free re-parse oracle: that the BYTES the printer writes lex to `SE.toks` (no token fusion: fixes ebb5d69,
-  aca1392), function and object literals, statements, pretty mode.
+  model-free re-parse oracle: that the BYTES the printer writes lex to `toks` (no token fusion: fixes ebb5d69,
+  aca1392), pretty mode (incl. `WithSemi(false)`), trees outside `wf`.
   Known findings there: stmt-start-object-or-function, dangling-else, printer-paren-function-indent, trim-in-literal.
 -/
 namespace Xjs.C03
-open Xjs Xjs.RTE
+open Xjs Xjs.RS
 
 /-- PRINT → PARSE: for every such tree, parsing the printer's token sequence (followed by anything
     that cannot continue an expression, e.g. `;`, `)`, `,`, end of input) returns exactly that tree. -/
@@ -35,40 +38,41 @@ theorem printed_tokens_parse_back (cfg : PCfg) (hc : BaseCfg cfg) (s : SE) (hw :
     parseExpressionI cfg [] LOWEST st = some (s.tree, nextK (s.toks.length - 1) st) :=
   print_then_parse hc s hw LOWEST st rest hr ht (fits_lowest s hw) (stops_mono hstop (rbl_ge_one s hw)) hstop
 
-mutual
-  /-- the parentheses of `SE.toks` are exactly the printer's: the levels are the `Precedence()` values of the nodes -/
-  def _root_.Xjs.RTE.SE.bare : SE → Expr
-    | .atom t => atomTree t
-    | .grp e => .group lpT e.bare rpT
-    | .un t r => .unary t t.lit r.bare
-    | .bin t l r => .binary t l.bare t.lit r.bare
-    | .post t l => .postfix t l.bare t.lit
-    | .call t f args => .call t f.bare args.bare
-    | .dot t o p => .member t o.bare (atomTree p) false
-    | .idx t o p => .member t o.bare p.bare true
-    | .asg t l v => .assign t l.bare v.bare
-    | .casg t l v => .compound t l.bare (compoundOp t) v.bare
-    | .arr t es => .array t es.bare rbT
-  def _root_.Xjs.RTE.SEList.bare : SEList → ExprList
-    | .nil => .nil
-    | .cons e rest => .cons e.bare rest.bare
-end
+/-- PRINT → PARSE for statements: any well-formed statement, followed by anything that is not an `else` after an open
+    `if`, parses back to the statement; the cursor stops on its last token -/
+theorem printed_statement_parses_back (cfg : PCfg) (hc : BaseCfg cfg) (s : SS) (hw : s.wf = true)
+    (st : PS) (rest : List Token) (hr : rest ≠ []) (ht : st.toks = s.toks ++ rest)
+    (hopen : s.openIf = true → (rest.headD semiT).type ≠ .else_) :
+    parseStatementI cfg cfg.stmtI st = some (s.tree, nextK (s.toks.length - 1) st) :=
+  stmtMain hc s hw st rest hr ht hopen
 
-theorem prec_bare (s : SE) : (SE.bare s).prec = s.level := by
+/-- PRINT → PARSE for whole programs, every mode: the printed tokens of any well-formed program tree parse to that
+    tree without any error -/
+theorem printed_program_parses_back (cfg : PCfg) (hc : BaseCfg cfg) (prog : SSList) (hw : prog.wf = true)
+    (eofTok : Token) (he : eofTok.type = .eof) :
+    ∃ r, parseProgram cfg (prog.toks ++ [eofTok]) = some r ∧ r.prog = prog.tree ∧ r.errors = [] ∧ r.hasErr = false :=
+  program_round_trip hc prog hw eofTok he
+
+/-- the modes the theorems cover: the four combinations of strict / tolerant and smart semicolons -/
+theorem all_modes_are_base (tolerant smart : Bool) : BaseCfg { tolerant := tolerant, smart := smart } :=
+  ⟨rfl, rfl, rfl, rfl, rfl⟩
+
+/-- the levels of `SE.toks` are the `Precedence()` values of the nodes of the tree -/
+theorem prec_tree (s : SE) : s.tree.prec = s.level := by
   cases s with
   | atom t =>
-    show (SE.bare (.atom t)).prec = precAtomic
-    simp only [SE.bare]
+    show (SE.tree (.atom t)).prec = precAtomic
+    simp only [SE.tree]
     unfold atomTree; split <;> rfl
-  | _ => simp [SE.bare, Expr.prec, SE.level]
+  | _ => simp [SE.tree, Expr.prec, SE.level]
 
-/-- the printer's four parenthesisation tests, on the bare tree, are the ones `SE.toks` uses -/
+/-- the printer's four parenthesisation tests, on the tree, are the ones `SE.toks` uses -/
 theorem printer_tests (t : Token) (l r : SE) :
-    (decide ((SE.bare l).prec < operatorPrecedence t.type) = parenLeft (operatorPrecedence t.type) l) ∧
-    (decide ((SE.bare r).prec ≤ operatorPrecedence t.type) = parenRight (operatorPrecedence t.type) r) ∧
-    (decide ((SE.bare r).prec < precUnary) = parenUnary r) ∧
-    (decide ((SE.bare l).prec < precPostfix) = parenPostfix l) := by
-  simp only [prec_bare, parenLeft, parenRight, parenUnary, parenPostfix, and_self]
+    (decide (l.tree.prec < operatorPrecedence t.type) = parenLeft (operatorPrecedence t.type) l) ∧
+    (decide (r.tree.prec ≤ operatorPrecedence t.type) = parenRight (operatorPrecedence t.type) r) ∧
+    (decide (r.tree.prec < precUnary) = parenUnary r) ∧
+    (decide (l.tree.prec < precPostfix) = parenPostfix l) := by
+  simp only [prec_tree, parenLeft, parenRight, parenUnary, parenPostfix, and_self]
 
 /-- tie: the printer's precedence table equals the parser's binding-power table on every operator token
     (re-extracted from /repo on every run) -/
@@ -95,8 +99,22 @@ example : demo2.wf = true := by decide
 example : demo2.toks.map (·.type) = [.ident, .assign, .ident, .lparen, .ident, .comma, .ident, .rparen, .lbracket, .ident,
     .rbracket, .dot, .ident, .plusAssign, .lbracket, .ident, .rbracket] := by decide
 
+/-- `function f(a) { if (a) return a; else { let x = [a]; } }  f(1);` as a programmatic tree -/
+private def prog : SSList :=
+  .cons (.funcD (tk .function [102]) (tk .ident [102]) [tk .ident [97]]
+    (.cons (.ifElse (tk .if_ [105, 102]) (.atom (tk .ident [97])) (.ret (tk .return_ [114]) (.atom (tk .ident [97])))
+      (.block (.cons (.letS (tk .let_ [108]) (tk .ident [120]) (.arr (tk .lbracket [91]) (.cons (.atom (tk .ident [97])) .nil))) .nil))) .nil))
+  (.cons (.exprS (.call (tk .lparen [40]) (.atom (tk .ident [102])) (.cons (.atom (tk .int [49])) .nil))) .nil)
+example : prog.wf = true := by decide
+example : prog.toks.map (·.type) = [.function, .ident, .lparen, .ident, .rparen, .lbrace, .if_, .lparen, .ident, .rparen,
+    .return_, .ident, .semicolon, .else_, .lbrace, .let_, .ident, .assign, .lbracket, .ident, .rbracket, .semicolon, .rbrace,
+    .rbrace, .ident, .lparen, .int, .rparen, .semicolon] := by decide
+
 end Xjs.C03
 
 #print axioms Xjs.C03.printed_tokens_parse_back
+#print axioms Xjs.C03.printed_statement_parses_back
+#print axioms Xjs.C03.printed_program_parses_back
+#print axioms Xjs.C03.all_modes_are_base
 #print axioms Xjs.C03.printer_tests
 #print axioms Xjs.C03.tables_agree
